@@ -71,6 +71,10 @@ type caseJ struct {
 	// write lock of the core.BasicCluster for LockWaitMs milliseconds (a heartbeat / PutStore being
 	// processed): the fit waits in GetStore / GetStores and must give the same answer afterwards
 	LockWaitMs int `json:"lock_wait_ms,omitempty"`
+	// with LockWaitMs: the fits of A and of B (same region id, same epoch, other peers / leader - what a
+	// scheduler evaluates for a candidate move) are requested by two goroutines while the lock is held, so
+	// that both calls are inside RuleManager.FitRegion at the same time; each must get the fit of ITS region
+	Overlap bool `json:"overlap,omitempty"`
 	// cluster stream: the stores live in the RaftCluster of a real pd server. Puts is the history of
 	// the stores (RaftCluster.PutStore = a store (re)joining with labels, merged into the ones it has, an
 	// empty value drops the label; RaftCluster.UpdateStoreLabels with force = `store label --force`);
@@ -537,6 +541,7 @@ func genManager(r *rng.R) caseJ {
 func genLockWait(r *rng.R) caseJ {
 	c := genManager(r)
 	c.Stream, c.LockWaitMs = "lockwait", 60+r.Intn(30)
+	c.Overlap = r.Pct(50)
 	return c
 }
 
@@ -783,7 +788,20 @@ func run(R *res.Result, c *caseJ) outcome {
 		}
 		return placement.FitRegion(ss, mkRegion(r), rules)
 	}
-	fa, fb := fit(c.A), fit(c.B)
+	var fa, fb *placement.RegionFit
+	if mgr != nil && c.LockWaitMs > 0 && c.Overlap {
+		first = false
+		ca, cb := make(chan *placement.RegionFit, 1), make(chan *placement.RegionFit, 1)
+		bc.Lock()
+		go func() { ca <- fit(c.A) }()
+		time.Sleep(time.Duration(c.LockWaitMs/3) * time.Millisecond)
+		go func() { cb <- fit(c.B) }()
+		time.Sleep(time.Duration(c.LockWaitMs*2/3) * time.Millisecond)
+		bc.Unlock()
+		fa, fb = <-ca, <-cb
+	} else {
+		fa, fb = fit(c.A), fit(c.B)
+	}
 	oa, ob := observe(R, fa), observe(R, fb)
 	ab, ba := 0, 0
 	func() {
